@@ -21,8 +21,49 @@ def showResult (r : Box Rat × List (Atom Rat)) : String :=
   showRats (r.1.vects.toList ++ r.1.origin.toList) ++ " " ++ toString r.2.length ++
     (r.2.foldl (fun acc a => acc ++ " " ++ showAtom a) "")
 
+/-! property names travel as `k` + hex of their UTF-8 bytes (blanks, non-ASCII); the model sees the real strings. -/
+def hexVal (c : Char) : Option Nat :=
+  if '0' ≤ c ∧ c ≤ '9' then some (c.toNat - '0'.toNat)
+  else if 'a' ≤ c ∧ c ≤ 'f' then some (c.toNat - 'a'.toNat + 10) else none
+
+def hexBytes : List Char → Option (List UInt8)
+  | [] => some []
+  | a :: b :: rest =>
+    match hexVal a, hexVal b, hexBytes rest with
+    | some x, some y, some r => some (UInt8.ofNat (16 * x + y) :: r)
+    | _, _, _ => none
+  | _ => none
+
+def decodeKey (t : String) : Option String :=
+  match t.toList with
+  | 'k' :: cs => (hexBytes cs).bind fun bs => String.fromUTF8? (ByteArray.mk bs.toArray)
+  | _ => none
+
+def hexDigit (n : Nat) : Char := if n < 10 then Char.ofNat (48 + n) else Char.ofNat (87 + n)
+
+def encodeKey (s : String) : String :=
+  "k" ++ String.ofList (s.toUTF8.toList.flatMap fun b => [hexDigit (b.toNat / 16), hexDigit (b.toNat % 16)])
+
 def handleC04 (toks : List String) : String :=
   match toks with
+  -- keys k<hex>...: names of the per-atom properties a copy made by supersize / rotate carries
+  | "keys" :: ks =>
+    match ks.mapM decodeKey with
+    | some names => " ".intercalate ((copiedKeys names).map encodeKey)
+    | none => err "format"
+  -- pbc p0 p1 p2 U(9 ints): flags of the system rotate returns
+  | "pbc" :: a :: b :: c :: us =>
+    match parseBool? a, parseBool? b, parseBool? c, (parseInts? us).bind M3.ofList? with
+    | some a, some b, some c, some U =>
+      let r := rotatePbc U ⟨a, b, c⟩
+      showBool r.a ++ " " ++ showBool r.b ++ " " ++ showBool r.c
+    | _, _, _, _ => err "format"
+  | "sizepair" :: lo :: hi :: [] =>
+    match lo.toInt?, hi.toInt? with
+    | some lo, some hi => match Size.ofPair? lo hi with
+      | some s => toString s.lo ++ " " ++ toString s.hi
+      | none => err "value"
+    | _, _ => err "format"
   | "supersize" :: e :: n :: rest =>
     match e.toNat?, n.toNat?, parseRats? (rest.take 12), parseInts? ((rest.drop 12).take 6) with
     | some e, some n, some bx, some [l0, h0, l1, h1, l2, h2] =>
